@@ -2,7 +2,8 @@
    Property theorems only; model in Gw/Merge.v, proofs in Proofs/MergeUnion.v and Proofs/UrlProofs.v. *)
 From Coq Require Import String List Bool.
 From GW Require Import Base.Res Base.GoStr Gql.Schema Gw.Merge Gw.MergeCheck
-  Proofs.MergeBasics Proofs.MergeProofs Proofs.MergeUnion Proofs.UrlProofs.
+  Proofs.MergeBasics Proofs.MergeProofs Proofs.MergeUnion Proofs.UrlProofs Proofs.MergeWhole Proofs.MergeResult
+  Proofs.MergeIfaces Proofs.MergePossible.
 Import ListNotations.
 Open Scope string_scope.
 Open Scope list_scope.
@@ -27,6 +28,23 @@ Theorem C03_merged_contains_only_sources : forall all out m,
   (forall i, In i (df_ifaces m) <-> exists d, In d all /\ df_name d = df_name m /\ df_kind d = KObject /\ In i (df_ifaces d)).
 Proof. exact merge_types_only. Qed.
 Print Assumptions C03_merged_contains_only_sources.
+
+(* Interface implementations, for objects and for interfaces (an interface may implement others):
+   the merged definition of a name implements exactly the interfaces some service declares for it.
+   (For interfaces this is the behaviour as repaired, DESIGN 6.5.) *)
+Theorem C03_interface_implementations_are_the_union : forall all out k o,
+  merge_types all = Ok out -> is_internal_name k = false -> find_def k out = Some o -> implementing (df_kind o) ->
+  forall i, In i (df_ifaces o) <-> exists x, In x all /\ df_name x = k /\ In i (df_ifaces x).
+Proof. exact merged_ifaces_exact. Qed.
+Print Assumptions C03_interface_implementations_are_the_union.
+
+(* Every name some service defines is defined in the merged schema, exactly once, and nothing
+   else is: the merged type of a name is the merge of all the definitions of that name. *)
+Theorem C03_merged_names_are_the_source_names : forall all out k,
+  merge_types all = Ok out ->
+  NoDup (map df_name out) /\ (find_def k out <> None <-> In k (map df_name all)).
+Proof. intros all out k H. split; [exact (merge_types_names_nodup all out H)|exact (defined_iff all out k H)]. Qed.
+Print Assumptions C03_merged_names_are_the_source_names.
 
 (* The routing table computed from a list of (location, schema): a location is listed under a key
    exactly when its schema contributes that key; with introspection stripped, no "__"-prefixed type
